@@ -251,6 +251,22 @@ fn mon_c01(ctx: &mut Ctx, s: &Session, l1: &[Mv], byz: u32) -> Step {
             return ctx.fail(Prop::C01, "is_legal.mismatch", format!("offer={why};answer=true"), format!("is_legal({}) = true for an illegal triple in {fen}", m.text()));
         }
     }
+    // now and then: every one of the 64 x 64 x 5 triples
+    if ctx.claim == Prop::C01 && ctx.tape.choose(600) == 599 {
+        ctx.stats.bump("c01.is_legal.full-triple-sweeps");
+        for from in 0..64u8 {
+            for to in 0..64u8 {
+                for promo in [0u8, m1::N, m1::B, m1::R, m1::Q] {
+                    let m = Mv::new(from, to, promo);
+                    let want = l1.binary_search(&m).is_ok();
+                    let got = op(Op::Generate, || s.board.is_legal(sut::mv(m)));
+                    if got != want {
+                        return ctx.fail(Prop::C01, "is_legal.mismatch", format!("offer=sweep;answer={got}"), format!("is_legal({}) = {got}, reference {want}, in {fen}", m.text()));
+                    }
+                }
+            }
+        }
+    }
     Ok(())
 }
 
@@ -335,6 +351,28 @@ fn mon_c02(ctx: &mut Ctx, s: &Session, l1: &[Mv], byz: u32) -> Step {
                 }
                 return ctx.fail(Prop::C02, &format!("succ.{comp}"), feat, format!("after {} in {fen}: {d}", m.text()));
             }
+        }
+    }
+    // now and then: every one of the 64 x 64 x 5 triples through a drawn checked operation
+    if ctx.tape.choose(1500) == 1499 {
+        ctx.stats.bump("c02.full-triple-sweeps");
+        let which = ctx.tape.choose(3);
+        let before = format!("{:?}", s.board);
+        for from in 0..64u8 {
+            for to in 0..64u8 {
+                for promo in [0u8, m1::N, m1::B, m1::R, m1::Q] {
+                    let m = Mv::new(from, to, promo);
+                    if l1.binary_search(&m).is_ok() {
+                        continue;
+                    }
+                    if apply_checked(&s.board, m, which).is_some() {
+                        return ctx.fail(Prop::C02, "gate.accepted-illegal", format!("offer=sweep;op={}", APPLY_NAMES[which as usize]), format!("{} accepted illegal {} in {fen}", APPLY_NAMES[which as usize], m.text()));
+                    }
+                }
+            }
+        }
+        if format!("{:?}", s.board) != before {
+            return ctx.fail(Prop::C02, "gate.mutated-on-refusal", "offer=sweep".into(), format!("the board changed while refusing illegal triples in {fen}"));
         }
     }
     // F-BYZ: illegal triples offered to the checked operations
